@@ -154,7 +154,16 @@ def evaluate_z3_string_value(expr: z3.ExprRef, _) -> Maybe[Z3EvalResult]:
     if not z3.is_string_value(expr):
         return Nothing
     expr: z3.StringVal
-    return Some(((), expr.as_string().replace(r"\u{}", "\x00")))
+    return Some(
+        (
+            (),
+            re.sub(
+                r"\\u\{([0-9a-fA-F]*)\}",
+                lambda m: chr(int(m.group(1) or "0", 16)),
+                expr.as_string(),
+            ),
+        )
+    )
 
 
 def evaluate_z3_int_value(expr: z3.ExprRef, _) -> Maybe[Z3EvalResult]:
